@@ -16,6 +16,11 @@
 (*         "whl"  while _w(n, c):       at most two rounds per entry       *)
 (*         "brk"  break                 "cnt"  continue                    *)
 (*         "rtn"  return               (no value: a guard clause)          *)
+(*         "ifa"  if c: t = (n, (r..))          compound statements on one  *)
+(*         "wha"  while _w(n, c): t = (n, (r..))        physical line       *)
+(*      an "else" line may also follow the block of a for / while: it runs  *)
+(*      when the loop ends without break; break / continue inside it belong *)
+(*      to the enclosing loop                                               *)
 (*      t  assigned variable, r set of variables read, c condition input   *)
 (*                                                                         *)
 (* Values are provenance tuples, so a wrong data flow changes the output.  *)
@@ -34,6 +39,8 @@ CONSTANTS MaxLines,     \* lines per body
           MaxDepth,     \* deepest indentation level (0-based)
           Kinds,        \* line kinds in use
           InitSets,     \* set of sets of variables bound on entry (parameters with defaults)
+          ReadSets,     \* read sets in use (SUBSET Vars = all; smaller to focus a run on control flow)
+          ForTargets,   \* loop variables in use (Vars \cup {""} = all)
           StmtOn,       \* BOOLEAN: statement extraction actions
           ExprOn,       \* BOOLEAN: expression extraction actions
           BackEdges,    \* BOOLEAN: liveness follows loop back edges (TRUE = the oracle; FALSE only to show sensitivity)
@@ -64,16 +71,18 @@ Min(S) == CHOOSE x \in S : \A y \in S : x <= y
 
 Shape(k, t, r, c) == [k |-> k, t |-> t, r |-> r, c |-> c]
 Shapes ==
-  { Shape(k, t, r, "") : k \in ({"asg", "aug"} \cap Kinds), t \in Vars, r \in SUBSET Vars }
-  \cup { Shape(k, "", r, "") : k \in ({"prt", "ret"} \cap Kinds), r \in SUBSET Vars }
+  { Shape(k, t, r, "") : k \in ({"asg", "aug"} \cap Kinds), t \in Vars, r \in ReadSets }
+  \cup { Shape(k, "", r, "") : k \in ({"prt", "ret"} \cap Kinds), r \in ReadSets }
   \cup { Shape(k, "", {}, c) : k \in ({"if", "whl"} \cap Kinds), c \in Conds }
-  \cup { Shape(k, t, {}, "") : k \in ({"for"} \cap Kinds), t \in (Vars \cup {""}) }
+  \cup { Shape(k, t, {}, "") : k \in ({"for"} \cap Kinds), t \in ForTargets }
   \cup { Shape(k, "", {}, "") : k \in ({"else", "brk", "cnt", "rtn"} \cap Kinds) }
+  \cup { Shape(k, t, r, c) : k \in ({"ifa", "wha"} \cap Kinds), t \in Vars, r \in {{}, Vars}, c \in Conds }
 
 MkLine(sh, n, d) == [n |-> n, d |-> d, k |-> sh.k, t |-> sh.t, r |-> sh.r, c |-> sh.c]
 
 IsHeader(l) == l.k \in {"if", "else", "for", "whl"}
-IsLoop(l)   == l.k \in {"for", "whl"}
+IsLoop(l)   == l.k \in {"for", "whl", "wha"}
+Inline(l)   == l.k \in {"ifa", "wha"}          \* a compound statement on one physical line
 Abrupt(l)   == l.k \in {"ret", "rtn", "brk", "cnt"}
 Simple(l)   == l.k \in {"asg", "aug", "prt", "ret"}
 
@@ -88,7 +97,7 @@ CanAppend(s, sh, d) ==
           /\ sh.k = "else" =>
                /\ ~IsHeader(p)
                /\ LET q == Max({m \in 1..Len(s) : s[m].d <= d})
-                  IN s[q].d = d /\ s[q].k = "if"
+                  IN s[q].d = d /\ s[q].k \in {"if", "for", "whl"}
   /\ sh.k \in {"brk", "cnt"} =>
        \E m \in 1..Len(s) : /\ IsLoop(s[m]) /\ s[m].d < d
                             /\ \A m2 \in (m+1)..Len(s) : s[m2].d > s[m].d
@@ -103,9 +112,11 @@ BlockEnd(b, i) == Max({j \in i..Len(b) : \A m \in (i+1)..j : b[m].d > b[i].d})
 
 HasElse(b, i) ==
   LET e == BlockEnd(b, i)
-  IN b[i].k = "if" /\ e < Len(b) /\ b[e+1].k = "else" /\ b[e+1].d = b[i].d
+  IN b[i].k \in {"if", "for", "whl"} /\ e < Len(b) /\ b[e+1].k = "else" /\ b[e+1].d = b[i].d
+ElseLo(b, i) == BlockEnd(b, i) + 2
+ElseHi(b, i) == BlockEnd(b, BlockEnd(b, i) + 1)
 
-\* last line of the statement that starts at line i (an if owns its else)
+\* last line of the statement that starts at line i (an if / a loop owns its else)
 StmtEnd(b, i) ==
   LET e == BlockEnd(b, i) IN IF HasElse(b, i) THEN BlockEnd(b, e + 1) ELSE e
 
@@ -220,8 +231,12 @@ ExecStmt(b, H, i, inp, st) ==
          ELSE IF inp[l.c] THEN ExecRange(b, H, i + 1, e, inp, st)
          ELSE IF HasElse(b, i) THEN ExecRange(b, H, e + 2, BlockEnd(b, e + 1), inp, st)
          ELSE st
+    [] l.k = "ifa" ->
+         IF l.c \notin st.bnd THEN Raise(st)
+         ELSE IF ~inp[l.c] THEN st
+         ELSE IF Needs(l) \subseteq st.bnd THEN Bind(st, l.t, ExprVal(l, st.env)) ELSE Raise(st)
     [] l.k = "for" -> ExecFor(b, H, i, 1, inp, st)
-    [] l.k = "whl" -> ExecWhl(b, H, i, inp, st)
+    [] l.k \in {"whl", "wha"} -> ExecWhl(b, H, i, inp, st)
     [] l.k = "call" ->
          IF ~H.recvok THEN Raise(st)                     \* the receiver (self) is not a name here
          ELSE IF ~(H.params \subseteq st.bnd) THEN Raise(st)   \* arguments are evaluated at the call
@@ -236,7 +251,7 @@ ExecStmt(b, H, i, inp, st) ==
                                 !.bnd = st.bnd \cup H.results]
 
 ExecFor(b, H, i, k, inp, st) ==
-  IF k > 2 THEN st
+  IF k > 2 THEN (IF HasElse(b, i) THEN ExecRange(b, H, ElseLo(b, i), ElseHi(b, i), inp, st) ELSE st)
   ELSE LET l == b[i]
            st1 == IF l.t # "" THEN Bind(st, l.t, <<l.n, k>>) ELSE st
            st2 == ExecRange(b, H, i + 1, BlockEnd(b, i), inp, st1)
@@ -249,9 +264,13 @@ ExecFor(b, H, i, k, inp, st) ==
 ExecWhl(b, H, i, inp, st) ==
   LET l == b[i] IN
   IF l.c \notin st.bnd THEN Raise(st)
-  ELSE IF ~inp[l.c] \/ st.wc[l.n] >= 2 THEN [st EXCEPT !.wc[l.n] = 0]
+  ELSE IF ~inp[l.c] \/ st.wc[l.n] >= 2
+       THEN LET st0 == [st EXCEPT !.wc[l.n] = 0]
+            IN IF HasElse(b, i) THEN ExecRange(b, H, ElseLo(b, i), ElseHi(b, i), inp, st0) ELSE st0
   ELSE LET st1 == [st EXCEPT !.wc[l.n] = @ + 1]
-           st2 == ExecRange(b, H, i + 1, BlockEnd(b, i), inp, st1)
+           st2 == IF l.k = "wha"
+                  THEN (IF Needs(l) \subseteq st1.bnd THEN Bind(st1, l.t, ExprVal(l, st1.env)) ELSE Raise(st1))
+                  ELSE ExecRange(b, H, i + 1, BlockEnd(b, i), inp, st1)
        IN CASE st2.sig = "brk" -> Norm(st2)
             [] st2.sig \in {"cnt", "norm"} -> ExecWhl(b, H, i, inp, Norm(st2))
             [] OTHER -> st2
@@ -266,7 +285,7 @@ Run(b, H, initB, inp) == Obs(ExecRange(b, H, 1, Len(b), inp, St0(initB)))
 
 FlowVars == Vars \cup Conds
 
-RECURSIVE LB(_, _, _, _, _, _, _), LBStmt(_, _, _, _, _, _), LoopFix(_, _, _, _, _, _)
+RECURSIVE LB(_, _, _, _, _, _, _), LBStmt(_, _, _, _, _, _), LoopFix(_, _, _, _, _, _, _)
 
 \* variables live before statements lo..hi, given the live sets after them
 \* (X), at the target of break (Xb) and at the target of continue (Xc);
@@ -288,15 +307,19 @@ LBStmt(be, b, i, X, Xb, Xc) ==
     [] l.k = "cnt" -> Xc
     [] l.k = "if"  -> {l.c} \cup LB(be, b, i + 1, e, X, Xb, Xc)
                       \cup (IF HasElse(b, i) THEN LB(be, b, e + 2, BlockEnd(b, e + 1), X, Xb, Xc) ELSE X)
-    [] OTHER -> LoopFix(be, b, i, X, X, 5)
+    [] Inline(l) -> {l.c} \cup X \cup l.r             \* the write is conditional: kills nothing
+    [] OTHER -> LET Xe == IF HasElse(b, i) THEN LB(be, b, ElseLo(b, i), ElseHi(b, i), X, Xb, Xc) ELSE X
+                IN LoopFix(be, b, i, X, Xe, Xe, 5)
 
-\* live set at the head of the loop at line i, least fixed point from X
-LoopFix(be, b, i, X, Hd, fuel) ==
+\* live set at the head of the loop at line i, least fixed point from Xe;
+\* X: live after the whole statement (target of break), Xe: live where the
+\* loop ends without break (before its else clause, if any)
+LoopFix(be, b, i, X, Xe, Hd, fuel) ==
   LET l == b[i]
-      back == IF be THEN Hd ELSE X
+      back == IF be THEN Hd ELSE Xe
       inner == LB(be, b, i + 1, BlockEnd(b, i), back, X, back)
-      nxt == IF l.k = "for" THEN X \cup (inner \ {l.t}) ELSE {l.c} \cup X \cup inner
-  IN IF fuel = 0 \/ nxt = Hd THEN nxt ELSE LoopFix(be, b, i, X, nxt, fuel - 1)
+      nxt == IF l.k = "for" THEN Xe \cup (inner \ {l.t}) ELSE {l.c} \cup Xe \cup inner
+  IN IF fuel = 0 \/ nxt = Hd THEN nxt ELSE LoopFix(be, b, i, X, Xe, nxt, fuel - 1)
 
 NoCtx == [live |-> {}, brk |-> {}, cnt |-> {}]
 
@@ -313,9 +336,11 @@ BlockCtx(be, b, p) ==
   LET q == IF b[p].k = "else" THEN IfOf(b, p) ELSE p
       A == AfterCtx(be, b, q, StmtEnd(b, q))
   IN IF IsLoop(b[p])
-     THEN LET Hd == LoopFix(be, b, p, A.live, A.live, 5)
-          IN [live |-> IF be THEN Hd ELSE A.live, brk |-> A.live,
-              cnt |-> IF be THEN Hd ELSE A.live]
+     THEN LET Xe == IF HasElse(b, p) THEN LB(be, b, ElseLo(b, p), ElseHi(b, p), A.live, A.brk, A.cnt)
+                    ELSE A.live
+              Hd == LoopFix(be, b, p, A.live, Xe, Xe, 5)
+          IN [live |-> IF be THEN Hd ELSE Xe, brk |-> A.live,
+              cnt |-> IF be THEN Hd ELSE Xe]
      ELSE A
 
 \* variables certainly assigned by statements lo..hi when they complete
@@ -344,7 +369,7 @@ DAat(b, initB, i) ==
                      b[m].d = b[i].d /\ b[m].k # "else" /\ StmtEnd(b, m) = i - 1
           IN DAat(b, initB, q) \cup DW(b, q, i - 1)
 
-Written(b, i, j) == {b[m].t : m \in {m2 \in i..j : b[m2].k \in {"asg", "aug", "for"}}} \ {""}
+Written(b, i, j) == {b[m].t : m \in {m2 \in i..j : b[m2].k \in {"asg", "aug", "for", "ifa", "wha"}}} \ {""}
 
 -----------------------------------------------------------------------------
 (* Statement extraction                                                    *)
@@ -382,8 +407,8 @@ RegionClass(b, initB, i, j) ==
 
 \* how line l mentions v: "r" read, "w" written, "rw" read then written
 Mention(l, v) ==
-  LET rd == v \in l.r \/ (l.k = "aug" /\ l.t = v) \/ (l.k \in {"if", "whl"} /\ l.c = v)
-      wr == l.k \in {"asg", "aug", "for"} /\ l.t = v
+  LET rd == v \in l.r \/ (l.k = "aug" /\ l.t = v) \/ (l.k \in {"if", "whl", "ifa", "wha"} /\ l.c = v)
+      wr == l.k \in {"asg", "aug", "for", "ifa", "wha"} /\ l.t = v
   IN IF rd /\ wr THEN "rw" ELSE IF rd THEN "r" ELSE IF wr THEN "w" ELSE "-"
 
 FirstMentionLine(b, lo, hi, v) ==
@@ -416,12 +441,12 @@ WriteAfterInner(b, i, j, v) ==
      /\ Mention(b[m], v) \in {"w", "rw"}
      /\ b[m].d > b[i].d
      /\ \E h \in (StmtAt(b, m, b[i].d + 1) + 1)..(m - 1) :
-           IsHeader(b[h]) /\ b[h].k # "else" /\ StmtEnd(b, h) < m
+           ((IsHeader(b[h]) /\ b[h].k # "else") \/ Inline(b[h])) /\ StmtEnd(b, h) < m
 
 ShapeOf(b, i, j, v) ==
   LET fr == FirstReadLine(b, i, j, v)
       fw == FirstMentionLine(b, i, j, v)
-      nested(m) == b[m].d > b[i].d \/ IsHeader(b[m])
+      nested(m) == b[m].d > b[i].d \/ IsHeader(b[m]) \/ Inline(b[m])
   IN [v  |-> v,
       fi |-> FirstMention(b, i, j, v),                      \* first mention inside
       fin |-> IF fw = 0 THEN "-" ELSE IF nested(fw) THEN "nested" ELSE "top",   \* .. inside a compound statement?
@@ -480,8 +505,8 @@ SubReads(l, s) == IF s.sub = "name" THEN {s.v} ELSE l.r
 \* lines on which the same sub-expression text occurs
 Matches(b, i, s) ==
   IF s.sub = "whole" THEN {i}
-  ELSE IF s.sub = "group" THEN {m \in 1..Len(b) : Simple(b[m]) /\ b[m].r = b[i].r}
-  ELSE {m \in 1..Len(b) : Simple(b[m]) /\ s.v \in b[m].r}
+  ELSE IF s.sub = "group" THEN {m \in 1..Len(b) : (Simple(b[m]) \/ Inline(b[m])) /\ b[m].r = b[i].r}
+  ELSE {m \in 1..Len(b) : (Simple(b[m]) \/ Inline(b[m])) /\ s.v \in b[m].r}
 
 \* headers of the blocks around line m, outermost first (0 = the function)
 RECURSIVE Chain(_, _)
@@ -498,7 +523,7 @@ CommonLen(b, M) ==
 DefPoint(b, M) == StmtAt(b, Min(M), CommonLen(b, M))
 LastStmtEnd(b, M) == StmtEnd(b, StmtAt(b, Max(M), CommonLen(b, M)))
 
-WritesIn(b, lo, hi, R) == \E m \in lo..hi : b[m].k \in {"asg", "aug", "for"} /\ b[m].t \in R
+WritesIn(b, lo, hi, R) == \E m \in lo..hi : b[m].k \in {"asg", "aug", "for", "ifa", "wha"} /\ b[m].t \in R
 
 
 \* one definition may stand for all matches: nothing the expression reads is
